@@ -7,6 +7,7 @@ import Gzx.Proofs.BitsStr
 import Gzx.Proofs.BitsMatStr
 import Gzx.Proofs.BitsScan2
 import Gzx.Proofs.BitsParse
+import Gzx.Proofs.BitsCtor
 namespace Gzx.Bits
 open Gzx
 
